@@ -170,6 +170,26 @@ def walk(prop, spec_obj, built, order_rng, picks, log, directed=None):
                                                              f'(decisions {made})')
         opts = dsg.get_option_nodes(c)
         opt_labels = [gen_dsg.label(o) for o in opts]
+        if prop == 'C06' and spec_obj.incompat:
+            # "an option whose selection would necessarily confirm two incompatible nodes is never offered in a feasible
+            # result": necessarily confirmed = start nodes, the options decided so far, this option, and everything they
+            # derive (choices not decided yet contribute nothing)
+            made_d = dict(made)
+            for o in opt_labels:
+                pair = spec_obj.conflict(spec_obj.closure(dict(made_d, **{cid: o}))[0])
+                if pair:
+                    # [static]: the option conflicts with what is always present or with what it derives itself, whatever
+                    # was decided before - it could have been removed when the graph was initialised
+                    own, todo = set(), [o]
+                    while todo:
+                        x = todo.pop()
+                        if x not in own:
+                            own.add(x)
+                            todo.extend(spec_obj.derive.get(x, []))
+                    static = spec_obj.conflict(spec_obj.closure({})[0] | own) is not None
+                    raise Viol('C06/conflicting-option-offered' + ('[static]' if static else ''),
+                               f'choice {cid} offers {o} although selecting it necessarily confirms the incompatible pair '
+                               f'{pair} (decisions so far: {made})')
         if directed is not None:
             tgt = directed[cid]
             if tgt not in opt_labels:
@@ -470,6 +490,8 @@ def generate(prop, seed, tier, n_incompat_max):
         spec = gen_dsg.add_reconvergent(rng, spec)
     elif motif < 0.30:
         spec = gen_dsg.add_interlocking_cycles(rng, spec)
+    if rng.random() < 0.5:
+        spec['order_seed'] = rng.getrandbits(16)  # derivation edges and choices added interleaved (else: edges first)
     orng = s('ops')
     n_walks = 3 if tier == 'quick' else 5
     walks = [{'order_seed': orng.getrandbits(32), 'picks': None} for _ in range(n_walks)]
@@ -493,6 +515,10 @@ def shrink_candidates(trace):
     if t.get('staged'):
         c = copy.deepcopy(t)
         c['staged'] = None
+        yield c
+    if spec.get('order_seed') is not None:
+        c = copy.deepcopy(t)
+        del c['spec']['order_seed']
         yield c
     # fewer walks
     if len(t['walks']) + len(t['directed']) > 1:
